@@ -191,6 +191,15 @@ class Proxies:
         self.os = OS()
 
         class LockOS(OS):
+            def close(self_, fd):
+                try:
+                    key = ("flock", real_os.fstat(fd).st_ino)
+                    if s.locks.get(key) == s.me():
+                        del s.locks[key]
+                except OSError:
+                    pass
+                return real_os.close(fd)
+
             def pread(self_, fd, n, off):
                 s.gate(("pread", off))
                 return real_os.pread(fd, n, off)
@@ -230,6 +239,31 @@ class Proxies:
                 s.gate(("lock", key),
                        enabled=lambda: s.locks.get(key, me) == me)
                 s.locks[key] = me
+
+            def flock(self_, fd, cmd):
+                # BSD locks: a lock space of their own (they do not exclude
+                # POSIX record locks), owned by the open file, released by
+                # LOCK_UN (and by closing the file, which the participants
+                # here do right after)
+                key = ("flock", real_os.fstat(fd).st_ino)
+                me = s.me()
+                if cmd & real_fcntl.LOCK_UN:
+                    s.gate(("funlock", key))
+                    if s.locks.get(key) == me:
+                        del s.locks[key]
+                    return
+                if cmd & real_fcntl.LOCK_NB:
+                    s.gate(("tryflock", key))
+                    if s.locks.get(key, me) != me:
+                        raise BlockingIOError()
+                    s.locks[key] = me
+                    return
+                s.gate(("flock", key),
+                       enabled=lambda: s.locks.get(key, me) == me)
+                s.locks[key] = me
+
+            def __getattr__(self_, name):
+                return getattr(real_fcntl, name)
         self.fcntl = Fcntl()
 
         class Tempfile:
